@@ -16,4 +16,4 @@ WHAT = {
 
 def prims(chk, fx, *groups):
     for g in groups:
-        golden.group(chk, fx, g, WHAT[g], goldenreg.GROUPS[g])
+        golden.group(chk, fx, g, WHAT[g], goldenreg.GROUPS[g], optional=True)
